@@ -99,7 +99,13 @@ def g_conn(rng):
     return {"addr": a, "ttl": ttl, "num": num}
 
 
+BW_TOKEN = "!#$%&'*+-.0123456789ABCDEFGHIJKLMNOPQRSTUVWXYZ^_`abcdefghijklmnopqrstuvwxyz{|}~"
+
+
 def g_bw(rng):
+    # the bandwidth type is a token (RFC 8866): mostly the registered names, one in four from the whole token alphabet
+    if rng.random() < 0.25:
+        return ("".join(rng.choice(BW_TOKEN) for _ in range(rng.randrange(1, 6))), g_u32(rng))
     return (rng.choice(["AS", "CT", "TIAS", "X-a", "RR"]), g_u32(rng))
 
 
